@@ -191,6 +191,13 @@ def generate(tier, seed, ctx):
         else:
             lo = dyadic(rng, -8, 8, 2)
             R.append("c18.itrans %s 21 %s %s" % (gen(), hx(lo), hx(lo + rng.choice([0.25, 1.0, 3.0, 100.0]))))
+    # --- inverse transform on narrow domains far from the origin (offset/width up to 1e12), non-linear CDFs of the relative position
+    for k in range(120 if th else 40):
+        w = rng.choice([1.0, 2.0, 0.5, 10.0 ** rng.uniform(-3, 3)])
+        off = rng.choice([-1.0, 1.0]) * w * 10.0 ** rng.uniform(0, 12 if k % 3 else 9.5)
+        lo_ = off; hi_ = off + w
+        if hi_ > lo_:
+            R.append("c18.itrans %s %d %s %s" % (gen(), rng.choice([22, 23, 24]), hx(lo_), hx(hi_)))
     # --- Poisson ----------------------------------------------------------------------------------------
     means = [1e-2, 0.1, 0.5, 1.0, 2.5, 10.0, 37.0, 100.0, 499.0, 500.0, 501.0, 709.0, 750.0, 1000.0, 1500.5, 3000.0, 5000.0]
     for k in range(260 if th else 90):
@@ -300,6 +307,8 @@ def generate(tier, seed, ctx):
         st("poisson", (N if lam < 100 else (N // 4 if lam < 1000 else N // 10)), [lam])
     for cid, lo, hi in [(0, 0.0, 1.0), (1, 0.0, 1.0), (20, 0.0, 20.0), (21, -2.0, 5.0)]:
         st("itrans", N // 2, [cid, lo, hi])
+    for cid, lo, hi in [(22, 1e9, 1e9 + 1.0), (23, -3e8 - 2.0, -3e8), (24, 7e10, 7e10 + 64.0), (22, 0.0, 1.0)]:
+        st("itrans", N // 2, [cid, lo, hi])
     for pid, lo, hi, ym in [(1, -4.0, 4.0, 1.0), (2, -1.5, 1.5, 1.0), (22, -5.0, 5.0, 4.0), (22, -5.0, 5.0, 6.0), (3, -1.0, 2.0, 4.125), (3, -1.0, 2.0, 40.0)]:
         st("rej1", N, [pid, lo, hi, ym])
     for pid, x0, x1, y0, y1, zm in [(22, -4.0, 4.0, -4.0, 4.0, 3.0), (3, -1.0, 1.0, 0.0, 1.0, 2.125), (3, -1.0, 1.0, 0.0, 1.0, 10.0), (0, 0.0, 1.0, 2.0, 4.0, 1.0)]:
@@ -405,7 +414,9 @@ def compare(rq, impl, model, ctx):
             out.append(fail("prop", "Inverse_Transform_Sampling consumed %s uniforms, expected %s" % (ti[1], tm[1]), ""))
         else:
             tol = Fraction(2e-10) * (Fraction(hi) - Fraction(lo)) + Fraction(abs(x)) * 2 * EPS
-            cdf = (lambda t: _cdf1F(cid, t)) if cid < 3 else (lambda t: (Fraction(t) - Fraction(lo)) / (Fraction(hi) - Fraction(lo)))
+            rel = lambda t: (Fraction(t) - Fraction(lo)) / (Fraction(hi) - Fraction(lo))
+            cdf = {0: lambda t: _cdf1F(0, t), 1: lambda t: _cdf1F(1, t), 2: lambda t: _cdf1F(2, t), 21: rel,
+                   22: lambda t: rel(t) ** 8, 23: lambda t: rel(t) ** 2, 24: lambda t: 1 - (1 - rel(t)) ** 3}[cid]
             xl, xr = max(Fraction(lo), Fraction(x) - tol), min(Fraction(hi), Fraction(x) + tol)
             if not (lo <= x <= hi):
                 out.append(fail("prop", "Inverse_Transform_Sampling: value outside [xMin,xMax]", repr(x)))
@@ -676,7 +687,9 @@ def cmp_stat(a, impl, ctx):
         _z(v.var(ddof=1), sg * sg, sg * sg * math.sqrt(2.0 / (n - 1)), "Sample_Gauss variance", out)
     elif kind == "itrans":
         cid, lo, hi = int(p[0]), p[1], p[2]
-        cdf = {0: lambda x: x, 1: lambda x: x * x, 20: lambda x: (1 - np.exp(-x)) / (1 - math.exp(-hi)), 21: lambda x: (x - lo) / (hi - lo)}[cid]
+        trel = lambda x: (x - lo) / (hi - lo)
+        cdf = {0: lambda x: x, 1: lambda x: x * x, 20: lambda x: (1 - np.exp(-x)) / (1 - math.exp(-hi)), 21: trel,
+               22: lambda x: trel(x) ** 8, 23: lambda x: trel(x) ** 2, 24: lambda x: 1 - (1 - trel(x)) ** 3}[cid]
         if np.any(v < lo) or np.any(v > hi):
             out.append(fail("prop", "Inverse_Transform_Sampling: value outside [xMin,xMax]", ""))
         _ks(v, cdf, "Inverse_Transform_Sampling(cdf %d)" % cid, out)
